@@ -684,6 +684,14 @@ impl TransportManager {
             }
         };
 
+        // The address may belong to a transport that was compiled in but not enabled: refuse it
+        // before the address is stored and the peer is put into `Dialing` state.
+        if !self.transports.keys().any(|transport| transport == &supported_transport) {
+            return Err(Error::TransportNotSupported(
+                address_record.address().clone(),
+            ));
+        }
+
         // when constructing `AddressRecord`, `PeerId` was verified to be part of the address
         let remote_peer_id =
             PeerId::try_from_multiaddr(address_record.address()).expect("`PeerId` to exist");
